@@ -1,5 +1,5 @@
 /-
-  PygModel.Zip — `lens` / `zipper` (src/pyg_base/_zip.py:6-72), `len0` (_loop.py:13-38),
+  PygModel.Zip — `zlens` / `zzipper` (src/pyg_base/_zip.py:6-72), `len0` (_loop.py:13-38),
   `as_list` / `as_tuple` (src/pyg_base/_as_list.py:11-104, default `none = False`).
   ranges, zips, dict views, numpy arrays are not modelled.
 -/
@@ -22,8 +22,8 @@ def lensOf (ls : List Nat) : Res Nat :=
     | [] => .ok 1
     | n :: rest => if rest.all (· == n) then .ok n else .error .value
 
-/-- `lens(*values)` -/
-def lens (vs : List Val) : Res Nat := lensOf (vs.map len0)
+/-- `zlens(*values)` -/
+def zlens (vs : List Val) : Res Nat := lensOf (vs.map len0)
 
 /-- `is_iterable(value)`: lists, tuples, dicts (which iterate over their keys); never strings -/
 def isIterable : Val → Bool
@@ -47,18 +47,18 @@ def zipN (cols : List (List Val)) : List (List Val) :=
   (List.range (minLen cols)).map fun i => cols.map fun c => c.getD i (.cell .none)
 
 /-- `list(value) * n if len(value) == 1 else value` -/
-def bcast (n : Nat) (c : List Val) : List Val :=
+def zbcast (n : Nat) (c : List Val) : List Val :=
   match c with
   | [x] => List.replicate n x
   | _ => c
 
-/-- `zipper(*values)` (as the list of tuples the returned `zip` yields) -/
-def zipper (vs : List Val) : Res (List Val) :=
+/-- `zzipper(*values)` (as the list of tuples the returned `zip` yields) -/
+def zzipper (vs : List Val) : Res (List Val) :=
   let cols := vs.map items
   match lensOf (cols.map List.length) with
   | .error e => .error e
   | .ok n =>
-    let cols := if n > 1 then cols.map (bcast n) else cols
+    let cols := if n > 1 then cols.map (zbcast n) else cols
     .ok ((zipN cols).map .tuple)
 
 /-- `as_list(value)` -/
